@@ -45,13 +45,13 @@ Theorem C04_handoff_never_stuck_no_error :
   forall cin cout echo kpol ilen alen recs s,
     (forall j, 1 <= ilen j) -> (forall j, 1 <= alen j) -> (echo = true -> forall j, alen j = ilen j) ->
     1 <= cin -> 1 <= cout ->
-    let pr := mkP cache_order cache_poison_first cache_final_peek cin cout echo kpol in
+    let pr := mkP cache_order cache_poison_first cache_final_peek cin cout echo kpol false false false in
     reachable (wstep pr ilen alen) (w_init recs) s ->
     (wstuck pr ilen alen s = true -> wterminal s = true) /\ w_kpc s <> KErr.
 Proof.
   intros cin cout echo kpol ilen alen recs s Hi Ha He Hci Hco pr Hr. split.
-  - exact (wrapper_no_stuck pr ilen alen Hi Ha He Hci Hco eq_refl recs s Hr).
-  - exact (wrapper_no_error pr ilen alen Hi Ha He Hci Hco eq_refl recs s Hr).
+  - refine (wrapper_no_stuck pr ilen alen Hi Ha He Hci Hco eq_refl _ _ recs s Hr); intros X; discriminate X.
+  - refine (wrapper_no_error pr ilen alen Hi Ha He Hci Hco eq_refl _ _ recs s Hr); intros X; discriminate X.
 Qed.
 Print Assumptions C04_handoff_never_stuck_no_error.
 
@@ -61,7 +61,7 @@ Print Assumptions C04_handoff_never_stuck_no_error.
 Theorem C04_entries_served_in_order_with_their_own_answers :
   forall cin cout echo kpol ilen alen (ls : list (nat * line)) s,
     let recs := map (fun b : bool => if b then 1 else 0) (map snd (feeder ls [])) in
-    let pr := mkP cache_order cache_poison_first cache_final_peek cin cout echo kpol in
+    let pr := mkP cache_order cache_poison_first cache_final_peek cin cout echo kpol false false false in
     reachable (wstep pr ilen alen) (w_init recs) s ->
     rev (w_emitted s) = pairs 0 (firstn (length (w_emitted s)) recs) /\
     (w_kpc s = KDone -> rev (w_emitted s) = pairs 0 recs).
